@@ -46,13 +46,15 @@ def command_events(ctx):
     res = ctx.run_many(jobs, timeout=120)
     # overwrite scenario: a long result, then a shorter one, written to the same path
     for fmt, opts, big, small, n in (("fasta", ["--fasta-output"], "n40.fa", "n2.fa", 2), ("fastq", ["--fastq-output"], "n40.fq", "n2.fq", 2),
-                                     ("json", ["--json-output"], "n40.fa", "n1.fa", 1)):
-        out = os.path.join(d, "over_" + fmt)
+                                     ("json", ["--json-output"], "n40.fa", "n1.fa", 1),
+                                     # no format option: the writer that guesses the format from the data
+                                     ("fasta", [], "n40.fa", "n2.fa", 2), ("fastq", [], "n40.fq", "n2.fq", 2)):
+        out = os.path.join(d, "over_" + fmt + ("" if opts else "_guess"))
         r1 = ctx.run_many([{"argv": [conv] + opts + ["-o", out, big], "cwd": d}], timeout=120)[0]
         r2 = ctx.run_many([{"argv": [conv] + opts + ["-o", out, small], "cwd": d}], timeout=120)[0]
         res.append(r2)
         evs.append({"fmt": fmt, "sizes": [n], "workers": 0, "how": "file-overwrite/z0", "z": 0, "outfile": out,
-                    "argv": "obiconvert %s -o F %s ; obiconvert %s -o F %s" % (opts[0], big, opts[0], small), "push": [0],
+                    "argv": "obiconvert %s -o F %s ; obiconvert %s -o F %s" % (" ".join(opts), big, " ".join(opts), small), "push": [0],
                     "closes": 1, "writeafterclose": 0, "hung": 0})
     for e, r in zip(evs, res):
         data = r["out"]
